@@ -148,9 +148,11 @@ func (m *TCPMuxDefault) GetConnByUfrag(ufrag string, isIPv6 bool, local net.IP) 
 			defer conn.refs.Add(-1)
 		}
 	}
-	if ok {
-		conn.ClearAliveTimer()
-	} else {
+	if ok && !conn.ClearAliveTimer() {
+		// its alive timer has fired: it is being closed
+		ok = false
+	}
+	if !ok {
 		var err error
 		conn, err = m.createConn(ufrag, isIPv6, local, false)
 		if err != nil {
